@@ -41,6 +41,7 @@ const (
 	mPanicInDefer = `"!pd"` // a panic is raised inside a deferred call
 	mDeep         = `"!rd"` // recover called one call deeper than the deferred function
 	mLoop         = `"!dl"` // deferred call registered inside a loop runs
+	mHelperBody   = `"!rb"` // recover called from a plain helper in a function body
 	mDeferPanic   = `"!dp"` // `defer panic(v)` is registered (the panic is raised when the function's deferred calls run)
 )
 
@@ -61,6 +62,62 @@ func (g *gen) hLog() string {
 func (g *gen) hRecov() string {
 	// calls recover itself: recovers when it is the deferred function, not when it is called by one
 	return g.helper("recov", "func NAME(tag string) {\n\trec.R(tag, recover())\n}")
+}
+
+func (g *gen) hRecovVal() string {
+	// returns what recover() gives when called from a plain function
+	return g.helper("rval", "func NAME() interface{} {\n\treturn recover()\n}")
+}
+
+// plainHelperRecover: recover() called from a plain helper function (called, not
+// deferred): must return nil wherever the call is made, and must not stop a panic.
+func (g *gen) plainHelperRecover(marker string) string {
+	g.Tag("recover:plain-helper")
+	if g.Bool("helper-form") {
+		return fmt.Sprintf("rec.E(%d, %s)\n%s(\"h%d\")\n", g.Ev(), marker, g.hRecov(), g.Ev())
+	}
+	return fmt.Sprintf("rec.E(%d, %s)\nrec.R(\"h%d\", %s())\n", g.Ev(), marker, g.Ev(), g.hRecovVal())
+}
+
+// compiledDefer: a deferred call that never enters interpreted code: a method of a
+// compiled type (sync.Mutex, sync.WaitGroup, strings.Builder, bytes.Buffer; local or
+// package-level variable) or a closure with an empty / trivial body.
+func (g *gen) compiledDefer() string {
+	switch g.Pick(7, "compiled-defer") {
+	case 0:
+		g.Tag("defer:compiled-method(sync.Mutex,local)")
+		g.imports["sync"] = true
+		v := g.Local("mu")
+		return fmt.Sprintf("var %s sync.Mutex\n%s.Lock()\ndefer %s.Unlock()\n", v, v, v)
+	case 1:
+		g.Tag("defer:compiled-method(sync.Mutex,package-level)")
+		g.imports["sync"] = true
+		// one mutex per use site: functions form a DAG, so no function is active twice and
+		// a mutex is never locked while held
+		v := g.helper(fmt.Sprintf("mu%d_", g.Ev()), "var NAME sync.Mutex")
+		return fmt.Sprintf("%s.Lock()\ndefer %s.Unlock()\n", v, v)
+	case 2:
+		g.Tag("defer:compiled-method(sync.WaitGroup)")
+		g.imports["sync"] = true
+		v := g.Local("wg")
+		return fmt.Sprintf("var %s sync.WaitGroup\n%s.Add(1)\ndefer %s.Done()\n", v, v, v)
+	case 3:
+		g.Tag("defer:compiled-method(strings.Builder)")
+		g.imports["strings"] = true
+		v := g.Local("sb")
+		return fmt.Sprintf("var %s strings.Builder\ndefer func() {\n\trec.E(%d, %s.String())\n}()\ndefer %s.WriteString(\"w\")\n", v, g.Ev(), v, v)
+	case 4:
+		g.Tag("defer:compiled-method(bytes.Buffer)")
+		g.imports["bytes"] = true
+		v := g.Local("bb")
+		return fmt.Sprintf("%s := &bytes.Buffer{}\ndefer func() {\n\trec.E(%d, %s.Len())\n}()\ndefer %s.WriteByte('x')\n", v, g.Ev(), v, v)
+	case 5:
+		g.Tag("defer:empty-closure")
+		return "defer func() {}()\n"
+	default:
+		g.Tag("defer:trivial-closure")
+		return "defer func() {\n\t_ = 0\n}()\n"
+	}
 }
 
 func (g *gen) tType() string {
@@ -161,7 +218,7 @@ func (g *gen) deferredBody(f *fun, d int, budget *int) string {
 	var b strings.Builder
 	n := g.Int(1, 4, "dbody-n")
 	for i := 0; i < n; i++ {
-		switch g.Pick(12, "dstmt") {
+		switch g.Pick(16, "dstmt") {
 		case 0, 1:
 			fmt.Fprintf(&b, "rec.E(%d)\n", g.Ev())
 		case 2, 3, 4:
@@ -213,11 +270,23 @@ func (g *gen) deferredBody(f *fun, d int, budget *int) string {
 					return b.String()
 				}
 			}
-		default:
+		case 11:
 			// recover when (maybe) nothing is panicking, result used in a condition
 			g.Tag("recover:result-tested")
 			r := g.Local("r")
 			fmt.Fprintf(&b, "%s := recover()\nrec.E(%d, %s != nil)\nrec.R(\"r%d\", %s)\n", r, g.Ev(), r, g.Ev(), r)
+		case 12, 13:
+			// a callee returns (its own deferred calls have run), then recover from a plain helper
+			g.Tag("recover:plain-helper-after-callee-in-deferred-call")
+			if d < 2 {
+				b.WriteString(g.callCallee(0, budget))
+			}
+			b.WriteString(g.plainHelperRecover(mDeep))
+		case 14:
+			g.Tag("compiled-defer-inside-deferred-call")
+			b.WriteString(g.compiledDefer())
+		default:
+			b.WriteString(g.plainHelperRecover(mDeep))
 		}
 	}
 	return b.String()
@@ -231,7 +300,7 @@ func (g *gen) body(f *fun, me int) string {
 	fmt.Fprintf(&b, "rec.E(%d, a)\n", g.Ev())
 	terminated := false
 	for i := 0; i < n && !terminated; i++ {
-		switch g.Pick(20, "stmt") {
+		switch g.Pick(26, "stmt") {
 		case 0:
 			fmt.Fprintf(&b, "rec.E(%d, a)\n", g.Ev())
 		case 1, 2, 3, 4:
@@ -307,6 +376,11 @@ func (g *gen) body(f *fun, me int) string {
 		case 18:
 			g.Tag("recover:not-in-deferred-call")
 			fmt.Fprintf(&b, "rec.R(\"n%d\", recover())\n", g.Ev())
+		case 20, 21, 22:
+			b.WriteString(g.compiledDefer())
+		case 23, 24:
+			g.Tag("recover:plain-helper-in-function-body")
+			b.WriteString(g.plainHelperRecover(mHelperBody))
 		default:
 			if f.named {
 				fmt.Fprintf(&b, "r = a + %d\n", g.Int(1, 50, "set-r"))
@@ -408,7 +482,7 @@ func generate(t *rapid.T, px string, avoid map[string]bool) gobatch.Program {
 	entry := g.Top("main")
 	g.Decls = append(g.Decls, fmt.Sprintf("func %s() {\n%s}", entry, progen.Indent(body.String())))
 	var imps []string
-	for _, p := range []string{"errors"} {
+	for _, p := range []string{"bytes", "errors", "strings", "sync"} {
 		if g.imports[p] {
 			imps = append(imps, p)
 		}
